@@ -136,6 +136,26 @@ func (s *trSuite) run(label string, steps []tStep) {
 					fail("C16", "event-for-wrong-channel:"+st.Kind, "a callback was reported for a channel that does not own the request")
 				}
 			}
+			// C11: when the events handler answers "stay paused" (ErrPause) to a message of the counterparty,
+			// the transport must keep the request paused, not terminate it
+			if (st.Kind == "gincomingresponse" || st.Kind == "gupdated") && known && o.Term {
+				present := 0
+				if st.Msg != nil {
+					present++
+				}
+				if st.M2 != nil {
+					present++
+				}
+				sawErr := false
+				sawPause := false
+				for i := 0; i < len(o.Calls) && i < len(st.Oracle); i++ {
+					sawErr = sawErr || st.Oracle[i].Ret == 2
+					sawPause = sawPause || st.Oracle[i].Ret == 1
+				}
+				if present > 0 && len(o.Calls) == present && !sawErr && sawPause {
+					fail("C11", "stay-paused-terminates-request:"+st.Kind, "the events handler answered 'stay paused' to the counterparty's message and the transport terminated the graphsync request instead of keeping it paused")
+				}
+			}
 			if !known && (o.Term || o.PauseReq || o.PauseResp || len(o.Sent) != 0 || len(o.Upd) != 0) {
 				fail("C16", "action-for-unknown-request:"+st.Kind, "a callback for an unknown request produced hook actions")
 			}
